@@ -637,6 +637,58 @@ impl Gen {
                 });
             }
         }
+        if self.rng.chance(12) {
+            // a legal move that has a pseudo-legal but ILLEGAL look-alike (same man, same target or -
+            // for pawns - same file pattern): written without origin hints it must still resolve,
+            // because disambiguation is among legal moves only
+            let mut cands: Vec<(RMove, SanData)> = Vec::new();
+            for m in &info.legal {
+                if m.kind == rm::K_CASTLE_K || m.kind == rm::K_CASTLE_Q {
+                    continue;
+                }
+                let pawn = piece_of(m.cell) == rm::P;
+                let rival = info.pseudo.iter().any(|x| {
+                    x != m
+                        && x.cell == m.cell
+                        && !info.legal.contains(x)
+                        && if pawn {
+                            file_of(x.src as usize) == file_of(m.src as usize)
+                                && file_of(x.dst as usize) == file_of(m.dst as usize)
+                                && x.promo_piece() == m.promo_piece()
+                                && file_of(m.src as usize) != file_of(m.dst as usize)
+                        } else {
+                            x.dst == m.dst && x.kind == rm::K_SIMPLE
+                        }
+                });
+                if !rival {
+                    continue;
+                }
+                let data = if pawn {
+                    SanData::PawnCaptureShort {
+                        src_file: file_of(m.src as usize) as u8,
+                        dst_file: file_of(m.dst as usize) as u8,
+                        promo: m.promo_piece(),
+                    }
+                } else {
+                    SanData::Simple {
+                        piece: piece_of(m.cell),
+                        file: None,
+                        rank: None,
+                        capture: info.pos.sq[m.dst as usize] != 0,
+                        dst: m.dst,
+                    }
+                };
+                cands.push((*m, data));
+            }
+            if let Some((_, data)) = self.rng.pick(&cands).cloned() {
+                let variant = self.rng.next_u64() as u32;
+                return Op::Push(if self.rng.chance(50) {
+                    MoveLike::SanMove { data, check: 0 }
+                } else {
+                    MoveLike::SanStr(render_san(&data, 0, variant))
+                });
+            }
+        }
         let want_fault = self.sw.faults_on
             && (self.rng.chance(self.sw.fault_pct) || (self.hot && self.rng.chance(self.sw.after_special)));
         if want_fault || info.legal.is_empty() {
